@@ -1,3 +1,6 @@
+#[cfg(feature = "verif")]
+#[allow(unused_imports)]
+use crate::verif::{core, std};
 use core::{
     cell::UnsafeCell,
     mem::{forget, size_of, zeroed, MaybeUninit},
@@ -71,9 +74,44 @@ impl<T> KanalPtr<T> {
     pub(crate) fn new_unchecked(addr: *mut T) -> Self {
         Self(UnsafeCell::new(MaybeUninit::new(addr)))
     }
+    /// Reports a payload access through this pointer (verification hook):
+    /// the cell word, and for large T the slot it points to.
+    #[cfg(feature = "verif")]
+    #[inline(always)]
+    unsafe fn verif_access(&self, is_write: bool) {
+        if size_of::<T>() == 0 {
+            return;
+        }
+        if size_of::<T>() > size_of::<*mut T>() {
+            crate::verif::read(self.0.get() as usize, size_of::<*mut T>());
+            let slot = (*self.0.get()).assume_init() as usize;
+            if is_write {
+                crate::verif::write(slot, size_of::<T>());
+            } else {
+                crate::verif::read(slot, size_of::<T>());
+            }
+        } else if is_write {
+            crate::verif::write(self.0.get() as usize, size_of::<T>());
+        } else {
+            crate::verif::read(self.0.get() as usize, size_of::<T>());
+        }
+    }
+    /// Address of the slot this pointer refers to, 0 when the value lives in
+    /// the pointer word itself (verification hook).
+    #[cfg(feature = "verif")]
+    #[inline(always)]
+    pub(crate) unsafe fn verif_slot(&self) -> usize {
+        if size_of::<T>() > size_of::<*mut T>() {
+            (*self.0.get()).assume_init() as usize
+        } else {
+            0
+        }
+    }
     /// Reads data based on movement protocol of KanalPtr based on size of T
     #[inline(always)]
     pub(crate) unsafe fn read(&self) -> T {
+        #[cfg(feature = "verif")]
+        self.verif_access(false);
         if size_of::<T>() == 0 {
             zeroed()
         } else if size_of::<T>() > size_of::<*mut T>() {
@@ -85,6 +123,8 @@ impl<T> KanalPtr<T> {
     /// Writes data based on movement protocol of KanalPtr based on size of T
     #[inline(always)]
     pub(crate) unsafe fn write(&self, d: T) {
+        #[cfg(feature = "verif")]
+        self.verif_access(true);
         if size_of::<T>() > size_of::<*mut T>() {
             ptr::write((*self.0.get()).assume_init(), d);
         } else {
@@ -98,6 +138,8 @@ impl<T> KanalPtr<T> {
     #[inline(always)]
     #[allow(unused)]
     pub(crate) unsafe fn copy(&self, d: *const T) {
+        #[cfg(feature = "verif")]
+        self.verif_access(true);
         if size_of::<T>() > size_of::<*mut T>() {
             // Data can't be stored as pointer value, move it to pointer
             // location
